@@ -315,6 +315,9 @@ impl<C: Config> ComputingLockGuard<C> {
 
         self.defused = true;
 
+        #[cfg(qbice_verif)]
+        crate::verif::point_query("q_publish", &self.query_id);
+
         let entry = self
             .engine
             .computation_graph
@@ -389,6 +392,9 @@ impl<C: Config> Engine<C> {
 
             return Err(CyclicError);
         }
+
+        #[cfg(qbice_verif)]
+        crate::verif::point_query("q_scc_wait", callee);
 
         notified.await;
 
@@ -550,8 +556,14 @@ impl<C: Config, Q: Query> Snapshot<C, Q> {
                 // there's some computing state already try again
                 let notified_owned = entry.get().notified_owned();
 
+                #[cfg(qbice_verif)]
+                let verif_query_id = *self.query_id();
+
                 drop(entry);
                 drop(self);
+
+                #[cfg(qbice_verif)]
+                crate::verif::point_query("q_lock_wait", &verif_query_id);
 
                 // wait for the existing computing to finish
                 notified_owned.await;
